@@ -57,6 +57,11 @@ TokenValid(s, r) == r.tok.self /\ r.tok.ip = r.from.ip /\ r.tok.ep \in {s.cur, s
 
 IsPut(r) == r.kind \in {"putimm", "putmut", "announce", "sannounce"}
 IsGet(r) == r.kind \in {"get", "getpeers", "getspeers"}
+\* peers.rs / signed_peers.rs get_random_peers: an answer carries everything that is stored up to 20 peers / 10 signed
+\* announcements (exclusive), and a random sample of exactly that size otherwise
+PeersPerAnswer == 20
+SignedPerAnswer == 10
+ServedOk(obs, stored, cap) == IF Cardinality(stored) < cap THEN obs = stored ELSE obs \subseteq stored /\ Cardinality(obs) = cap
 
 (* ------------------------------ replies -------------------------------- *)
 \* homogeneous reply record
@@ -208,10 +213,10 @@ C03_StoredAsSent(s, r, o, A, c) ==
 C03_ServesWhatWasRecorded(s, r, o, A, c) ==
    /\ (r.kind = "getpeers" /\ c.allow) =>
         IF Has(s.peers, r.t) /\ Len(Lookup(s.peers, r.t).ps) > 0
-        THEN o.kind = "peers" /\ o.peers = PeerSet(Lookup(s.peers, r.t).ps) ELSE o.kind = "novalues"
+        THEN o.kind = "peers" /\ ServedOk(o.peers, PeerSet(Lookup(s.peers, r.t).ps), PeersPerAnswer) ELSE o.kind = "novalues"
    /\ (r.kind = "getspeers" /\ c.allow) =>
         IF Has(s.sp, r.t) /\ Len(Lookup(s.sp, r.t).ps) > 0
-        THEN o.kind = "speers" /\ o.peers = SPeerSet(Lookup(s.sp, r.t).ps) ELSE o.kind = "novalues"
+        THEN o.kind = "speers" /\ ServedOk(o.peers, SPeerSet(Lookup(s.sp, r.t).ps), SignedPerAnswer) ELSE o.kind = "novalues"
 
 \* --- C04
 C04_SeqMonotone(s, r, o, A, c) ==
@@ -237,10 +242,10 @@ C04_GetReturnsLast(s, r, o, A, c) ==
 C04_GetPeersReturnsStored(s, r, o, A, c) ==
    /\ (r.kind = "getpeers" /\ c.allow) =>
         IF Has(s.peers, r.t) /\ Len(Lookup(s.peers, r.t).ps) > 0
-        THEN o.kind = "peers" /\ o.peers = PeerSet(Lookup(s.peers, r.t).ps) ELSE o.kind = "novalues"
+        THEN o.kind = "peers" /\ ServedOk(o.peers, PeerSet(Lookup(s.peers, r.t).ps), PeersPerAnswer) ELSE o.kind = "novalues"
    /\ (r.kind = "getspeers" /\ c.allow) =>
         IF Has(s.sp, r.t) /\ Len(Lookup(s.sp, r.t).ps) > 0
-        THEN o.kind = "speers" /\ o.peers = SPeerSet(Lookup(s.sp, r.t).ps) ELSE o.kind = "novalues"
+        THEN o.kind = "speers" /\ ServedOk(o.peers, SPeerSet(Lookup(s.sp, r.t).ps), SignedPerAnswer) ELSE o.kind = "novalues"
 
 \* --- C15 (the part visible in one step; timing formulas live in Tokens.tla / ServerTrace)
 C15_BoundToIp(s, r, o, A, c) == (c.put /\ o.kind = "ack") => (r.tok.self /\ r.tok.ip = r.from.ip)
